@@ -21,6 +21,9 @@ CLAIMED = {
  "C17": ("exploration", "Hypothesis invalid-request classes with expected-exception oracle, zero-execute audit and nearest-valid twin; 256 opcodes x 42 constructors enumerated", "4 C17",
          "Five invalid-input classes crossed with generated otherwise-valid arguments, each with its nearest valid twin so that both 'refuses too little' and 'refuses too much' are visible; recording device proves nothing was sent.",
          "errors identified by class name; unimplemented-but-listed EXTENDED COPY type codes are outside the property"),
+ "C04": ("exploration", "Hypothesis semantic values -> bytes via independent standards builders -> library decoder; expected-value tree comparison; exact / zero-padded / garbage-padded variants", "4 C04",
+         "For 30 response formats semantic values are generated over full field widths with 0..24 descriptors, rendered by builders written from the standards (own positions and length arithmetic) and decoded by the library; every modelled key must come back, lists in order and with the right count, garbage beyond the reported length must not be reported. Known finding: multi-page MODE SENSE responses (only the first page is decoded).",
+         "stdspec/responses.py; unmodelled fields are not compared (ATA IDENTIFY/signature sub-fields, PCIe routing id designator, header/sub-header contents of READ CD); standard INQUIRY has no garbage variant"),
  "C07": ("fault_enumeration", "fault injection: generated (command, status, sense, raw-sense, re-execution) histories on SG_IO and iSCSI stand-ins + status-byte sweep through direct execute and every facade method; expected-outcome oracle", "4 C07",
          "Statuses and sense buffers are injected behind both binding stand-ins at generated positions of generated command histories; all 256 status bytes are swept through direct execute and the named/selected ones through each facade method; the oracle is the outcome table of the property (GOOD returns, CHECK CONDITION raises with the injected key/ASC/ASCQ or attaches raw sense when asked, other statuses raise their named error, the facade passes the device's exception object on).",
          "stand-ins model cython-sgio (CheckConditionError / UnspecifiedError, no status byte) and cython-iscsi (Task.status, Task.raw_sense); SG_IO non-CHECK-CONDITION failures: any exception"),
